@@ -74,7 +74,7 @@ def random_cases(ctx):
     from .c02 import mutate
 
     rng = ctx.rng
-    for i in range(ctx.pick(400, 20000) // ctx.shard_count):
+    for i in range(ctx.pick(400, 100000) // ctx.shard_count):
         version = [None, *VERSIONS][i % 6]
         gen = histories.HistoryGen(rng, version)
         steps = []
@@ -414,7 +414,7 @@ def run(ctx) -> None:
             for eof in (True, False):
                 if ctx.mine():
                     arun(byte_case(ctx, VERSIONS[i % 5], chunks, eof))
-        for i in range(ctx.pick(300, 6000) // ctx.shard_count):
+        for i in range(ctx.pick(300, 40000) // ctx.shard_count):
             lines = [random_bytes(rng, rng.randint(0, 30)).replace(b"\n", b"") + b"\n" for _ in range(rng.randint(1, 6))]
             data = b"".join(lines)
             if rng.random() < 0.3:
